@@ -34,6 +34,15 @@ CLAIMED = {
         "extra/dropped-binding faults",
         "BER codec and USM are abstracted at this level (C05/C06/C09 cover them); dict() modelled as insertion-ordered association list",
     ),
+    "C05": (
+        "proof: the independent specification reader (strict definite-length BER, RFC message grammar) reads back exactly the "
+        "request record from what the x690 mirror writes: lengths, every integer, OIDs of the stated domain with unbounded later "
+        "arcs, every SET value kind, PDU framing, community messages (whole datagram, nothing else), SNMPv3 header / USM "
+        "parameters / msgData and the scoped PDU; each operation builds that record (PDU tags from generated facts); tied by "
+        "BYTE-EXACT comparison of every datagram at the sender seam with the model's emit, plus the independent Python decoder",
+        "domain: OIDs with >= 2 arcs, arc0 <= 2, arc1 < 40 (x690 packs the first two arcs into one octet); datagrams < 256^126 "
+        "octets; digest octets and ciphertext are taken from the wire (C10, C11)",
+    ),
     "C07": (
         "proof: id in the request = id validated for every operation and clock value; accepted => ids equal; mismatch => "
         "InvalidResponseId / never a result; echo accepted (v1/v2c/v3); foreign community/version refused; tied by correspondence "
